@@ -83,13 +83,60 @@ def random_history(rng):
     return ["c04.results", total, kf, kfl, ops]
 
 
+def flow_case(rng, kind, nb=None, allow_exit=True, sizes=None):
+    """a run as batches: [kind, kf, kfl, batches, exit_after, exit_err]"""
+    nb = nb or rng.randint(1, 3)
+    sizes = sizes or [rng.randint(1, 3) for _ in range(nb)]
+    batches, kf, kfl = [], [], []
+    for i, sz in enumerate(sizes):
+        cases = []
+        for x in "abc"[:sz]:
+            n = "B%d/%s" % (i, x)
+            m = rng.random()
+            coherent = rng.random() < 0.85
+            if m < 0.2:
+                kf.append(n)
+                reply = rng.choice([1, 2, 3]) if coherent else 0
+            elif m < 0.4:
+                kfl.append(n)
+                reply = rng.choice([0, 1, 2, 3])
+            else:
+                reply = 0 if coherent else rng.choice([1, 2, 3])
+            cases.append([n, reply])
+        batches.append([1 if rng.random() < 0.9 else 0, cases])
+    exit_after = -1
+    if allow_exit and batches[-1][0] == 1 and rng.random() < 0.6:
+        # the client ends inside the LAST batch only (so that no isRunning() check follows its exit:
+        # what isRunning() says after a clean exit belongs to C10)
+        prior = sum(len(b[1]) for b in batches[:-1] if b[0] == 1)
+        k = rng.randint(1, len(batches[-1][1]))
+        exit_after = prior + k
+        if rng.random() < 0.3:
+            batches[-1][1][k - 1][1] = 4   # reads the request, never answers, ends
+    return [kind, kf, kfl, batches, exit_after, 1 if rng.random() < 0.2 else 0]
+
+
+def flow_table(rng):
+    """single batch, <= 3 cases: every reply assignment x every exit point x exit status, random markings"""
+    for n in (1, 2, 3):
+        for replies in itertools.product([0, 1, 2, 3], repeat=n):
+            for ex in [-1] + list(range(1, n + 1)):
+                names = ["B0/" + x for x in "abc"[:n]]
+                cases = [[nm, r] for nm, r in zip(names, replies)]
+                if ex > 0 and rng.random() < 0.25:
+                    cases[ex - 1][1] = 4
+                kf = [nm for nm in names if rng.random() < 0.25]
+                kfl = [nm for nm in names if nm not in kf and rng.random() < 0.25]
+                yield ["c04.flow", kf, kfl, [[1, cases]], ex, rng.choice([0, 0, 1])]
+
+
 class C04(Prop):
     id = "C04"
     props = "C04_Props"
     coq_files = ("Base", "C04_Model", "C04_Spec", "C04_Proofs", "C04_Props")
     models = ("C04_Model",)
     packages = {"cc": "internal/app/connectconformance"}
-    kinds = {"c04.results": "cc"}
+    kinds = {"c04.results": "cc", "c04.flow": "cc", "c04.run": "cc"}
     rule = ("c04.results: EVERY assignment of {pass, assertion failure, client-reported error, setup error, could-not-run, never "
             "answered} x {unmarked, known-failing, known-flaky} x {feedback, none} to 1 and 2 cases (ordered) and to every multiset of 3 "
             "cases (thorough: every ordered triple), each realised by a randomly chosen way the runner has of producing that fate "
@@ -126,6 +173,11 @@ class C04(Prop):
             yield table_case(rng, list(a))
         for _ in range(2500 if tier == "quick" else 60000):
             yield random_history(rng)
+        yield from flow_table(rng)
+        for _ in range(400 if tier == "quick" else 6000):
+            yield flow_case(rng, "c04.flow")
+        for _ in range(40 if tier == "quick" else 600):
+            yield flow_case(rng, "c04.run", nb=rng.randint(1, 4), allow_exit=False)
 
 
 PROP = C04()
